@@ -17,19 +17,19 @@ CLAIMS = {
 
 CLAIMS.update({
     "C11": {
-        "text": "For the six TLV readers of der.py (found by role) and the two primitive readers: abstract interpretation on an arbitrary buffer shows that only UnexpectedDER escapes and that at every normal return the declared length lies within the buffer, the remainder is exactly buffer[1+llen+length:] and the value is built from exactly the declared body; the DER minimality rules (short/long length form, no leading zero length byte, long form only for >= 0x80, non-empty non-negative minimally-encoded INTEGER, BIT STRING unused bits 0..7 / expected value / zero padding / non-empty when unused != 0, padded OID sub-identifier) are entailment queries on role-defined byte terms at the return states; writer and reader tag bytes are cross-checked; encoders have no normal return outside their domain. Decides 'accept only canonical, never beyond the buffer, exact remainder'; does not decide value round-trips (hex / base-128 arithmetic).",
+        "text": "For the six TLV readers of der.py (found by role) and the two primitive readers: abstract interpretation on an arbitrary buffer shows that only UnexpectedDER escapes and that at every normal return the declared length lies within the buffer, the remainder is exactly buffer[1+llen+length:] and the value is built from exactly the declared body; the DER minimality rules (short/long length form, no leading zero length byte, long form only for >= 0x80, non-empty non-negative minimally-encoded INTEGER, BIT STRING unused bits 0..7 / expected value / all `unused` low bits of the last octet zero (exact mask 2**unused - 1) / non-empty when unused != 0, padded OID sub-identifier) are entailment queries on role-defined byte terms at the return states; writer and reader tag bytes are cross-checked; encoders have no normal return outside their domain. Decides 'accept only canonical, never beyond the buffer, exact remainder'; does not decide value round-trips (hex / base-128 arithmetic).",
         "note": "A1-A7; the integer value of a byte string is an uninterpreted term int_of(hex(x)); remove_object's arc arithmetic and encode_number/read_number value agreement are not decided.",
         "technique": "abstract interpretation with entailment queries at return states (decision facts on role-defined terms) + sibling tag table",
         "design": "DESIGN.md section 3 C11",
     },
     "C12": {
-        "text": "Strictness and pairing of the signature codecs: the raw decoders establish len == 2*orderlen(order) (string) / exactly two items of orderlen(order) bytes (strings) before any conversion and map the halves/items to (r, s) in order, with only MalformedSignature escaping; the DER decoder lets only UnexpectedDER escape, every remainder returned by a DER reader is consumed by the next reader or proven empty at return (no trailing bytes), and (r, s) are the first and second INTEGER of the SEQUENCE body; writers emit r then s through number_to_string with the same order / SEQUENCE[INTEGER r, INTEGER s]; the helper pair is length-exact on orderlen(order). Decides 'fixed size, strictly decoded, no second accepted encoding' together with C11's minimality facts; does not decide that the hex arithmetic is inverse to int().",
+        "text": "Strictness and pairing of the signature codecs: the raw decoders establish len == 2*orderlen(order) (string) / exactly two items of orderlen(order) bytes (strings) before any conversion and map the halves/items to (r, s) in order, with only MalformedSignature escaping; the DER decoder lets only UnexpectedDER escape, every remainder returned by a DER reader is consumed by the next reader or proven empty at return (no trailing bytes), and (r, s) are the first and second INTEGER of the SEQUENCE body; writers emit r then s through number_to_string with the same order / SEQUENCE[INTEGER r, INTEGER s]; the helper pair is length-exact on orderlen(order), and orderlen(order) has the shape ceil(bitlen(order)/8) computed from the order itself. Decides 'fixed size, strictly decoded, no second accepted encoding' together with C11's minimality facts; does not decide that the hex arithmetic is inverse to int().",
         "note": "A1-A7; orderlen(order) is the symbolic term (1 + len('%x' % order)) // 2, identical on both sides by hash-consing.",
         "technique": "abstract interpretation: length entailment at return states, rest-consumption rule over DER reader results, term-structure comparison writer vs reader",
         "design": "DESIGN.md section 3 C12",
     },
     "C13": {
-        "text": "For each of the three canonical encoders (found by role) and every s in [1, order-1] symbolically: at the delegation to the plain sibling the forwarded s' provably satisfies 2*s' <= order (an inexact float threshold leaves this unproven and is reported), s' is s or order - s, r and order are forwarded unchanged, the sibling is the plain encoder of the same format and every return value is that sibling's result. This is the first sentence of the property; equivalence of (r, n-s) under verification is algebra and not decided.",
+        "text": "For each of the three canonical encoders (found by role) and every s in [1, order-1] symbolically: at the delegation to the plain sibling the forwarded s' provably satisfies 2*s' <= order (an inexact float threshold leaves this unproven and is reported), s' is s or order - s, r and order are forwarded unchanged, the sibling is the plain encoder of the same format (helpers extracted from the encoders are followed) and every return value is that sibling's result. This is the first sentence of the property; equivalence of (r, n-s) under verification is algebra and not decided.",
         "note": "A1-A7; true division yields an abstract float on which no ordering fact is derived, so only exact integer comparisons can discharge R13.1.",
         "technique": "abstract interpretation over linear integer constraints (floor-division modelled exactly), call-site entailment",
         "design": "DESIGN.md section 3 C13",
@@ -38,13 +38,13 @@ CLAIMS.update({
 
 CLAIMS.update({
     "C02": {
-        "text": "Guards and totality of verification: in Public_key.verifies every return other than the constant False is reached only with 1 <= r, s <= n-1 (interval entailment at the return states, n = generator.order()), no exception can escape verifies (a possibly-identity result is tested before its coordinate is taken), True is only the outcome of comparing r with x(<double-scalar result>) mod n; verify / verify_digest return only the constant True and let only BadSignatureError (BadDigestError with truncation off) escape for any signature bytes with each of the three library decoders (12 contexts). Decides the range/identity/error-mapping/never-a-false-value clauses; does not decide that mul_add computes (e/s)G + (r/s)Q.",
+        "text": "Guards and totality of verification: in Public_key.verifies every return other than the constant False is reached only with 1 <= r, s <= n-1 (interval entailment at the return states, n = generator.order()), no exception can escape verifies (a possibly-identity result is tested before its coordinate is taken), True is only the outcome of comparing r with x(<double-scalar result>) mod n; verify / verify_digest return only the constant True and let only BadSignatureError (BadDigestError with truncation off) escape for any signature bytes with each of the three library decoders (12 contexts); the three decoders themselves are strict (exact lengths / item sizes, no trailing bytes, r and s read from the right places - the decoder clause shared with C12). Decides the range/identity/error-mapping/never-a-false-value/strict-decoding clauses; does not decide that mul_add computes (e/s)G + (r/s)Q.",
         "note": "A1-A7; point arithmetic is summarised (its result may be the identity unless compared with INFINITY); hash functions are contract parameters; digests are assumed non-empty as the property states.",
         "technique": "abstract interpretation: interval entailment at return states, identity/None typestate, exception-escape analysis",
         "design": "DESIGN.md section 3 C02",
     },
     "C03": {
-        "text": "Guard clauses and provenance of signing: for 1 <= k <= n-1 Private_key.sign lets only RSZeroError escape, every returned Signature has 1 <= r, s <= n-1 (both zero checks dominate the return), r has the shape x((k + c*n)*G) mod n (blinding by multiples of n only) and s is reduced mod n and built from k^-1 mod n, the hash, the secret multiplier and r; sign_number confines the nonce from either source to [1, order-1] before privkey.sign; the digest converter refuses an over-long digest with BadDigestError when truncation is off, is total when on, and reads the integer from a prefix of the digest; from_secret_exponent returns only for 1 <= secexp <= n-1, builds the key from generator * secexp and stores the same secexp. Does not decide the values of r, s, e (shift amount, modular algebra).",
+        "text": "Guard clauses and provenance of signing: for 1 <= k <= n-1 Private_key.sign lets only RSZeroError escape, every returned Signature has 1 <= r, s <= n-1 (both zero checks dominate the return), r has the shape x((k + c*n)*G) mod n (blinding by multiples of n only) and s is reduced mod n and built from k^-1 mod n, the hash, the secret multiplier and r; sign_number confines the nonce from either source to [1, order-1] before privkey.sign; the digest converter refuses an over-long digest with BadDigestError when truncation is off, is total when on, reads the integer from a prefix of the digest and shifts it by exactly max(0, 8*len(digest') - bit_length(order)) (shift derived from the byte length, not from the value); from_secret_exponent returns only for 1 <= secexp <= n-1, builds the key from generator * secexp and stores the same secexp. Does not decide the values of r, s, e (shift amount, modular algebra).",
         "note": "A1-A7; A5 is used for 'a scalar strictly between two multiples of the declared order does not annihilate the point'; the nonce assert in sign_number is treated as a guard (A7).",
         "technique": "abstract interpretation: interval entailment, term-shape (provenance) checks on symbolic values, must-pass-through guards",
         "design": "DESIGN.md section 3 C03",
@@ -71,7 +71,7 @@ CLAIMS.update({
         "design": "DESIGN.md section 3 C05",
     },
     "C08": {
-        "text": "Acceptance structure of public keys: the (length, prefix) dispatch table of from_string computed from the return states equals the specification table (raw: len = V; 04: len = V+1; 06/07: len = V+1; 02/03: len = V/2+1; V = 2*orderlen(p)) with each class reachable and everything else raising MalformedPointError; every returned key passed through from_public_point with the caller's validate_point, which builds Public_key(curve.generator, point, validate_point) and maps InvalidPointError; Public_key.__init__ confines x and y each to [0, p-1] unconditionally and, with verify, establishes the curve equation on (x, y) and cofactor == 1 or n*P == INFINITY (sibling point_is_valid cross-checked); decoded points are only read or forwarded before validation; the compressed and hybrid parity decision tables equal the specification tables and SquareRootError is mapped; the SPKI wrapper compares the algorithm OID, reads the BIT STRING with unused = 0, refuses a raw-length body, consumes or proves empty every DER remainder and leaves validation on; every registry curve declares a cofactor. Does not decide the curve-equation arithmetic, square roots, or that the identity test used by the subgroup check is exact (see C06 known finding).",
+        "text": "Acceptance structure of public keys: the (length, prefix) dispatch table of from_string computed from the return states equals the specification table (raw: len = V; 04: len = V+1; 06/07: len = V+1; 02/03: len = V/2+1; V = 2*orderlen(p)) with each class reachable and everything else raising MalformedPointError; every returned key passed through from_public_point with the caller's validate_point, which builds Public_key(curve.generator, point, validate_point) and maps InvalidPointError; Public_key.__init__ confines x and y each to [0, p-1] unconditionally and, with verify, establishes the curve equation on (x, y) and cofactor == 1 or n*P == INFINITY (sibling point_is_valid cross-checked); PointJacobi.__mul__ reduces scalars only modulo c*order with c >= 2, so n*P is not trivially the identity for a decoded point declaring order n; decoded points are only read or forwarded before validation; the compressed and hybrid parity decision tables equal the specification tables and SquareRootError is mapped; the SPKI wrapper compares the algorithm OID, reads the BIT STRING with unused = 0, refuses a raw-length body, consumes or proves empty every DER remainder and leaves validation on; every registry curve declares a cofactor. Does not decide the curve-equation arithmetic, square roots, or that the identity test used by the subgroup check is exact (see C06 known finding).",
         "note": "A1-A7; point arithmetic is summarised; the subgroup clause inherits C06's known finding (Y = 0 treated as the identity).",
         "technique": "abstract interpretation: decision tables from return-state facts (length x prefix, parity), must-pass-through call provenance, rest-consumption rule",
         "design": "DESIGN.md section 3 C08",
@@ -86,7 +86,7 @@ CLAIMS.update({
         "design": "DESIGN.md section 3 C06",
     },
     "C07": {
-        "text": "Sign and operand agreement of the multiplication loops: in mul_add the operand accumulated under each of the nine (sign A, sign B) digit cases is (sign A)P + (sign B)Q, the four combined points being classified from the signs of the Y arguments they were built with; __mul__ adds the negated base exactly on negative digits; _mul_precompute pairs k = 3 mod 4 with the negated table entry and (k+1)/2, k = 1 mod 4 with the entry and (k-1)/2; each digit starts with exactly one doubling and additions occur only in digit branches; NAF lists are padded to equal length; short-circuits pair each multiplier with its own point and the two fallbacks compute self*self_mul + other*other_mul; scalars are reduced only modulo a positive multiple of the declared order under `if self.__order`; C06's exactness/invariant rules hold inside the loops. The five Y == 0 sites in this code are the recorded known finding F6. Does not decide that NAF digits sum to k, table length, or result values.",
+        "text": "Sign and operand agreement of the multiplication loops: in mul_add the operand accumulated under each of the nine (sign A, sign B) digit cases is (sign A)P + (sign B)Q, the four combined points being classified from the signs of the Y arguments they were built with; __mul__ adds the negated base exactly on negative digits; _mul_precompute pairs k = 3 mod 4 with the negated table entry and (k+1)/2, k = 1 mod 4 with the entry and (k-1)/2; each digit starts with exactly one doubling and additions occur only in digit branches; accumulators start at the identity encoding (0, 0, 1) and every digit of the reversed NAF is consumed; NAF lists are padded to equal length; every table entry is the affine (x(), y()) of a point and is added with Z = 1; short-circuits pair each multiplier with its own point and the two fallbacks compute self*self_mul + other*other_mul; scalars are reduced only modulo a positive multiple of the declared order under `if self.__order`; C06's exactness/invariant rules hold inside the loops. The five Y == 0 sites in this code are the recorded known finding F6. Does not decide that NAF digits sum to k, table length, or result values.",
         "note": "A1-A7; same residue/role analysis as C06; an unrecognised restructuring of the digit dispatch is ANALYSIS-ERROR, not a violation.",
         "technique": "abstract interpretation over a sign/operand provenance domain + structural loop-shape checks",
         "design": "DESIGN.md section 3 C07",
@@ -101,13 +101,13 @@ CLAIMS.update({
         "design": "DESIGN.md section 3 C18",
     },
     "C19": {
-        "text": "Immutability by ownership and state transfer: every public method of the nine value classes has no field or global write effect, own or through callees, other than the two value-preserving writers of PointJacobi and VerifyingKey.precompute's replacement of the point object (transitive write-effect summary over the call graph); arguments are mutated only through scale()/_maybe_precompute(); scale() works from one snapshot, is skipped when Z == 1, stores (x', y', 1) computed from the snapshot and p only with X' depending on (X, Z) and Y' on (Y, Z); _maybe_precompute is guarded by (generator flag, empty table) and reads only coords/order/curve; from_affine / VerifyingKey.precompute rebuild the point from its own accessors; __getstate__/__setstate__ transfer the complete dictionary; __eq__ of keys and curves compares exactly the value-defining fields (no identity, no hidden state) and PointJacobi.__eq__ compares reduced cross products. The Y == 0 identity test in __eq__ is the recorded known finding F6. Does not decide that later results equal fresh-object results (needs the algebra of scale and the group law).",
+        "text": "Immutability by ownership and state transfer: every public method of the nine value classes has no field or global write effect, own or through callees, other than the two value-preserving writers of PointJacobi and VerifyingKey.precompute's replacement of the point object (transitive write-effect summary over the call graph); arguments are mutated only through scale()/_maybe_precompute(); scale() works from one snapshot, is skipped when Z == 1, stores (x', y', 1) computed from the snapshot and p only with X' depending on (X, Z) and Y' on (Y, Z); _maybe_precompute is guarded by (generator flag, empty table), reads only coords/order/curve and stores only affine (x(), y()) entries (independent of the scaling the point had when the table was built); from_affine / VerifyingKey.precompute rebuild the point from its own accessors; __getstate__/__setstate__ transfer the complete dictionary; __eq__ of keys and curves compares exactly the value-defining fields (no identity, no hidden state) and PointJacobi.__eq__ compares reduced cross products. The Y == 0 identity test in __eq__ is the recorded known finding F6. Does not decide that later results equal fresh-object results (needs the algebra of scale and the group law).",
         "note": "A2; same ownership analysis as C18; value preservation of scale() is checked as shape (dependencies), not as algebra.",
         "technique": "transitive write-effect analysis over the call graph + structural shape checks of the value-preserving writers and equality methods",
         "design": "DESIGN.md section 3 C19",
     },
     "C20": {
-        "text": "Lock discipline of the reader-writer lock, with locks identified by construction site: both light-switch methods take their mutex first and release it last with no early exit or raising statement in between, touch the counter only while the mutex is held and perform the group-lock operation after the counter update (== 1 after increment -> acquire, == 0 after decrement -> release); the reader/writer acquire methods hand out exactly the locks that the matching release methods release through the same switch and lock objects, every plain lock taken on the way in is released before returning, writer release drops the exclusive lock before leaving the writers group; the held->acquired lock-order graph over the five locks (7 edges, including the release phases) is acyclic; readers pass through queue and no_readers, writers never touch the queue. These are the premises that proofs of mutual exclusion and deadlock freedom assume; exclusion and liveness over all schedules are a state-space question and are not decided here.",
+        "text": "Lock discipline of the reader-writer lock, with locks identified by construction site (every lock is created per instance, none at class level): both light-switch methods take their mutex first and release it last with no early exit or raising statement in between, touch the counter only while the mutex is held and perform the group-lock operation after the counter update (== 1 after increment -> acquire, == 0 after decrement -> release); the reader/writer acquire methods hand out exactly the locks that the matching release methods release through the same switch and lock objects, every plain lock taken on the way in is released before returning, writer release drops the exclusive lock before leaving the writers group; the held->acquired lock-order graph over the five locks (7 edges, including the release phases) is acyclic; readers pass through queue and no_readers, writers never touch the queue. These are the premises that proofs of mutual exclusion and deadlock freedom assume; exclusion and liveness over all schedules are a state-space question and are not decided here.",
         "note": "A4; a group lock held by a switch counts as held; the pair (group lock of a switch -> that switch's mutex) is excluded from the order graph with the reason stated in the evidence.",
         "technique": "typestate / lock-set analysis: pairing on all paths, guarded-by, lock-order graph",
         "design": "DESIGN.md section 3 C20",
@@ -116,13 +116,13 @@ CLAIMS.update({
 
 CLAIMS.update({
     "C01": {
-        "text": "Structural agreement between the signing and the verifying side, which is what makes a disagreement show only for some curve x hash x default combination: sign_digest, verify_digest and recovery obtain their integer from the one shared converter called with (normalised digest, the key's own curve, the caller's allow_truncate) and no second conversion of a digest exists; allow_truncate defaults agree pairwise (True for the data API, False for the digest API) and default encoder/decoder belong to one format on every entry point; entropy, k, sigencode, sigdecode, hashfunc and allow_truncate are forwarded unchanged along sign -> sign_digest -> sign_number and verify -> verify_digest, both sides fall back to the key's default hash; the order handed to the encoder (privkey.order) and to the decoder (pubkey.order) are both set from curve.order by from_secret_exponent / from_public_point, which also receive the same curve and hash function; every key loader ends in those two constructors. Does not decide that verifies(sign(...)) holds arithmetically.",
+        "text": "Structural agreement between the signing and the verifying side, which is what makes a disagreement show only for some curve x hash x default combination: sign_digest, verify_digest and recovery obtain their integer from the one shared converter called with (normalised digest, the key's own curve, the caller's allow_truncate) and no second conversion of a digest exists; allow_truncate defaults agree pairwise (True for the data API, False for the digest API) and default encoder/decoder belong to one format on every entry point; entropy, k, sigencode, sigdecode, hashfunc and allow_truncate are forwarded unchanged along sign -> sign_digest -> sign_number and verify -> verify_digest, both sides fall back to the key's default hash; the order handed to the encoder (privkey.order) and to the decoder (pubkey.order) are both set from curve.order by from_secret_exponent / from_public_point, which also receive the same curve and hash function; sign_digest_deterministic hands the untouched digest, the RFC 6979 nonce and the caller's allow_truncate to sign_digest; every key loader ends in those two constructors. Does not decide that verifies(sign(...)) holds arithmetically.",
         "note": "A1-A7; relies on C12 for the codec pairing itself and on C03/C02 for the guards.",
         "technique": "abstract interpretation: call-argument provenance (forwarding dataflow), default-value table, constructor field provenance",
         "design": "DESIGN.md section 3 C01",
     },
     "C09": {
-        "text": "Writer/reader agreement of the key serialisations: the TLV tree each writer emits (SPKI, ECPrivateKey, PKCS#8; from the writer's expression tree) and the TLV tree its reader consumes (reconstructed from the buffers flowing between DER reader calls along every accepting path of the abstract interpretation) agree, the reader's children being a prefix of the writer's, with matching constants (version, context tag, algorithm OID); the curve registry is consistent (17+ Curve objects = members of `curves` = package exports, OIDs and names pairwise distinct, each curve paired with the generator constructed on it); every public point encoding written has exactly the length and prefix byte the from_string dispatcher expects, the private raw encoding is number_to_string(secret, privkey.order) and from_der left-pads short scalars; PEM labels written are those searched for; to_der refuses the raw encoding and to_string accepts exactly the four readable encodings; the remainders SigningKey.from_der drops are exactly the three documented ones. Does not decide byte-exactness against an independent encoder nor value round trips.",
+        "text": "Writer/reader agreement of the key serialisations: the TLV tree each writer emits (SPKI, ECPrivateKey, PKCS#8; from the writer's expression tree) and the TLV tree its reader consumes (reconstructed from the buffers flowing between DER reader calls along every accepting path of the abstract interpretation) agree, the reader's children being a prefix of the writer's, with matching constants (version, context tag, algorithm OID); the curve registry is consistent (17+ Curve objects = members of `curves` = package exports, OIDs and names pairwise distinct, each curve paired with the generator constructed on it); every public point encoding written has exactly the length and prefix byte the from_string dispatcher expects, the private raw encoding is number_to_string(secret, privkey.order), the privateKey OCTET STRING written by to_der has exactly orderlen(privkey.order) bytes, from_der left-pads short scalars and refuses a point body only when it has exactly the raw length; PEM labels written are those searched for; to_der refuses the raw encoding and to_string accepts exactly the four readable encodings; the remainders SigningKey.from_der drops are exactly the three documented ones. Does not decide byte-exactness against an independent encoder nor value round trips.",
         "note": "A1-A7; the DER primitives themselves are C11.",
         "technique": "DER-shape comparison (writer expression tree vs reader call/buffer flow from abstract interpretation), table checks, length entailment",
         "design": "DESIGN.md section 3 C09",
